@@ -156,6 +156,31 @@ def item(c):
         res = A
     else:
         raise ValueError(op)
+    keep = None
+    form = c.get('form', 'binary')
+    if form != 'binary':
+        # the in-place operator on A itself; 'inplace_after_view': a copy and a to_wirevector() of A were taken first (the
+        # copy must keep the old contents, the operator must see the current ones)
+        A2 = mat_in('A', r, k, bits, mb) if False else A
+        if form == 'inplace_after_view':
+            keep = A.copy()
+            A.to_wirevector()
+        X = A
+        if op == 'add':
+            X += B
+        elif op == 'sub':
+            X -= B
+        elif op == 'mul':
+            X *= B
+        elif op == 'matmul':
+            X @= B
+        elif op == 'pow':
+            X **= c['p']
+        else:
+            raise ValueError('no in-place form of ' + op)
+        res = X
+        if op in ('add', 'mul', 'matmul'):
+            exact = res.bits < mb
 
     def oracle(ins):
         a = decA(ins)
@@ -200,10 +225,15 @@ def item(c):
         rb = res.bits if isinstance(res, M.Matrix) else len(res)
         if isinstance(lst, list) and not isinstance(res, M.Matrix):
             lst = lst[0][0]
-        return exp_of(lst, rb, exact=exact)
+        out = exp_of(lst, rb, exact=exact)
+        if keep is not None:
+            out.update(exp_of(a, keep.bits, prefix='k'))
+        return out
     spec = {'outs': outs_of(res), 'oracle': oracle}
     if isinstance(res, M.Matrix):
         spec['widths'] = {n: res.bits for n in spec['outs']}
+    if keep is not None:
+        spec['outs'].update(outs_of(keep, prefix='k'))
     return spec
 
 
@@ -405,6 +435,15 @@ def cases(tier, seed):
         out.append({'op': 'matmul', 'r': r, 'c': k, 'bits': b1, 'r2': r2, 'c2': k2, 'bits2': b2})
         out.append({'op': 'dot', 'r': r, 'c': k, 'bits': b1, 'r2': r2, 'c2': k2, 'bits2': b2})
     out.append({'op': 'matmul', 'r': 2, 'c': 2, 'bits': 3, 'r2': 2, 'c2': 2, 'bits2': 3, 'max_bits': 5})
+    for form in ('inplace', 'inplace_after_view'):
+        for (r, k) in ((1, 1), (2, 2), (2, 3)):
+            for bits, b2 in ((3, 3), (3, 2), (2, 4)):
+                for op in ('add', 'sub', 'mul'):
+                    out.append({'op': op, 'r': r, 'c': k, 'bits': bits, 'bits2': b2, 'form': form})
+        out.append({'op': 'matmul', 'r': 2, 'c': 2, 'bits': 2, 'r2': 2, 'c2': 2, 'bits2': 2, 'form': form})
+        out.append({'op': 'matmul', 'r': 1, 'c': 2, 'bits': 2, 'r2': 2, 'c2': 2, 'bits2': 3, 'form': form})
+        out.append({'op': 'pow', 'r': 2, 'c': 2, 'bits': 2, 'p': 2, 'form': form})
+        out.append({'op': 'pow', 'r': 2, 'c': 2, 'bits': 2, 'p': 0, 'form': form})
     for (r, k), (r2, k2) in (((1, 3), (1, 3)), ((3, 1), (3, 1)), ((1, 1), (2, 3)), ((2, 2), (1, 1)), ((1, 3), (3, 1)), ((3, 1), (1, 3))):
         out.append({'op': 'dot', 'r': r, 'c': k, 'bits': 2, 'r2': r2, 'c2': k2, 'bits2': 3})
     for n, b, p in ((1, 3, 3), (2, 2, 0), (2, 2, 1), (2, 2, 2), (2, 1, 3), (3, 1, 2)) + (((2, 2, 3), (3, 2, 2)) if tier != 'quick' else ()):
@@ -413,7 +452,7 @@ def cases(tier, seed):
 
 
 def site_of(c):
-    return 'C19:%s' % c['op']
+    return 'C19:%s%s' % (c['op'], ':' + c['form'] if c.get('form') else '')
 
 
 def run_case(case, ob, tier):
